@@ -114,6 +114,8 @@ func main() {
 		os.Exit(cmdCheck(os.Args[2:]))
 	case "replay":
 		os.Exit(cmdReplay(os.Args[2:]))
+	case "selftest":
+		os.Exit(cmdSelftest(os.Args[2:]))
 	default:
 		fmt.Fprintln(os.Stderr, "unknown command", os.Args[1])
 		os.Exit(3)
@@ -255,7 +257,14 @@ func report(o checkOpts, eng *Engine, x *Explorer, hs []*Harness, seed int64, st
 	var samples []interface{}
 	var harnessEv []interface{}
 	funcs := map[string]bool{}
-	var stubs, assumptions, outside []string
+	stubs, outside := []string{}, []string{}
+	assumptions := []string{
+		"gosym interpreter semantics of go/ssa (validated by `gosym selftest` and by native replay of reachability witnesses / counterexamples)",
+		"integer-first SMT encoding: machine integers are Ints with explicit mod 2^w; math/big.Int is an exact Int; uint256.Int is an Int mod 2^256",
+		"hash functions and proto.Marshal are uninterpreted functions (functional consistency only; injectivity only where a harness asks for it)",
+		"goroutines are run synchronously at the spawn point; sync/atomic primitives are no-ops on a single thread; logging and formatting are opaque",
+		"z3 4.8.12 verdicts (any unknown, timeout or (error line is reported as INCONCLUSIVE, never as held)",
+	}
 	knownPrinted := map[string]bool{}
 	nativeOK := 0
 	var nativeJobs []nativeJob
@@ -502,4 +511,85 @@ func docSummary(doc string) string {
 		out = append(out, l)
 	}
 	return strings.Join(out, " ")
+}
+
+// cmdSelftest runs the engine self-tests: every T00 "pass" harness must be fully decided with no
+// violation, every "fail" harness must produce a violation that reproduces (interpreter + native).
+func cmdSelftest(args []string) int {
+	fs := flag.NewFlagSet("selftest", flag.ExitOnError)
+	repo := fs.String("repo", "/repo", "")
+	hdir := fs.String("harness-dir", "/verif/selftest", "")
+	fs.Parse(args)
+	eng, err := LoadEngine(*repo, *hdir, nil)
+	if err != nil {
+		fmt.Fprintln(os.Stderr, "selftest: load failed:", err)
+		return 1
+	}
+	var hs []*Harness
+	for _, n := range sortedKeys(eng.harness) {
+		hs = append(hs, eng.harness[n])
+	}
+	x := NewExplorer(eng, runtime.NumCPU(), 20*time.Second)
+	x.Run(hs)
+	bad := 0
+	o := checkOpts{repo: *repo, hdir: *hdir}
+	var jobs []nativeJob
+	for _, h := range hs {
+		rep := x.reports[h.name]
+		unk := 0
+		for _, n := range rep.AssertUnk {
+			unk += n
+		}
+		wantFail := strings.Contains(h.name, "-fail-")
+		switch {
+		case rep.Inconclusive > 0 || unk > 0 || rep.Truncated:
+			fmt.Printf("selftest %s: INCONCLUSIVE %v\n", h.name, rep.InconclusiveReasons)
+			bad++
+		case !wantFail && len(rep.Violations) > 0:
+			fmt.Printf("selftest %s: unexpected violation %s\n", h.name, rep.Violations[0].Label)
+			bad++
+		case wantFail && len(rep.Violations) == 0:
+			fmt.Printf("selftest %s: expected a violation, none found\n", h.name)
+			bad++
+		case wantFail:
+			v := rep.Violations[0]
+			if ok, why := eng.ConfirmInterp(h, v); !ok {
+				fmt.Printf("selftest %s: violation did not reproduce concretely: %s\n", h.name, why)
+				bad++
+			} else {
+				jobs = append(jobs, nativeJob{h: h, v: v, model: v.Model, expectFail: v.Label})
+				fmt.Printf("selftest %s: ok (violation %s found and reproduced in the interpreter)\n", h.name, v.Label)
+			}
+		default:
+			for _, l := range h.reachLabels {
+				if !rep.Reached[l] {
+					fmt.Printf("selftest %s: reach point %s not reached\n", h.name, l)
+					bad++
+				}
+				if m := rep.Witness[l]; m != nil {
+					jobs = append(jobs, nativeJob{h: h, model: m, witness: l})
+				}
+			}
+			fmt.Printf("selftest %s: ok (paths=%d)\n", h.name, rep.Paths)
+		}
+	}
+	res := runNative(eng, o, jobs)
+	for i, j := range jobs {
+		r := res[i]
+		if j.v != nil {
+			if !(r.failedAssert == j.expectFail || (j.expectFail == "no-panic" && r.panicked)) {
+				fmt.Printf("selftest %s: native replay did not reproduce %s (%s)\n", j.h.name, j.expectFail, r.summary)
+				bad++
+			}
+		} else if !r.ok {
+			fmt.Printf("selftest %s: native replay of witness failed (%s)\n", j.h.name, r.summary)
+			bad++
+		}
+	}
+	if bad > 0 {
+		fmt.Printf("selftest: %d problems\n", bad)
+		return 1
+	}
+	fmt.Printf("selftest: all %d harnesses behaved as expected; %d native replays agree\n", len(hs), len(jobs))
+	return 0
 }
